@@ -350,7 +350,7 @@ def const(node, env=None):
         return env['__funcs__'][node.func.id](*_args(node.args, env))     # pure helper folded by fold_func
     if isinstance(node, ast.Call) and isinstance(node.func, ast.Attribute) and not node.keywords and env and \
             norm(node.func) in env.get('__calls__', ()):
-        return env['__calls__'][norm(node.func)](*[const(a, env) for a in node.args])  # a method the caller of the fold models
+        return env['__calls__'][norm(node.func)](*_args(node.args, env))  # a method the caller of the fold models
     if isinstance(node, ast.Call) and isinstance(node.func, ast.Attribute) and not node.keywords:
         try:
             recv = const(node.func.value, env)
@@ -500,6 +500,16 @@ def fold_block(stmts, env):
             elif isinstance(t, ast.Tuple) and all(isinstance(e, ast.Name) for e in t.elts):
                 for e, vv in zip(t.elts, v):
                     env[e.id] = vv
+            elif isinstance(t, ast.Subscript) and isinstance(t.value, ast.Name) and isinstance(env.get(t.value.id), (bytearray, list, dict)):
+                # store into a mutable value the fold owns
+                if isinstance(t.slice, ast.Slice):
+                    env[t.value.id][slice(const(t.slice.lower, env) if t.slice.lower is not None else None,
+                                          const(t.slice.upper, env) if t.slice.upper is not None else None,
+                                          const(t.slice.step, env) if t.slice.step is not None else None)] = v
+                else:
+                    env[t.value.id][const(t.slice, env)] = v
+            elif isinstance(t, ast.Attribute) and isinstance(t.value, ast.Name) and t.value.id == 'self':
+                env[norm(t)] = v
             else:
                 raise NotConst(norm(t))
         elif isinstance(st, ast.AugAssign) and isinstance(st.target, ast.Name) and type(st.op) in _BIN:
